@@ -234,7 +234,15 @@ def run_case(draw, strategies=('ddmin', 'hierarchical', 'hybrid'), jobs=(1, 2, 4
         lit = '"a string literal that is longer than thirty-two characters"'
         text += (f'(declare-const {sym} (_ BitVec 40))\n(assert (= {sym} (bvand {sym} {bits})))\n'
                  f'(assert (distinct {bits} (bvnot {sym})))\n(assert (= {lit} (str.++ {lit} "")))\n')
+    tab_tok = None
+    if draw(st.integers(0, 4)) == 0:
+        # white space inside tokens is content: a TAB in a string literal / quoted symbol
+        tab_tok = draw(st.sampled_from(['"col1\tcol2  two blanks"', '|q\tq  s|']))
+        text += f'(assert (= x_tab {tab_tok}))\n'
     sp = draw(spec_for(text, kind=draw(st.sampled_from(kinds)) if kinds else None, with_delay=with_delay))
+    if tab_tok and sp['pred'][0] != 'hash' and draw(st.booleans()):
+        # ... which the command insists on
+        sp['pred'] = ['and', sp['pred'], ['has', tab_tok]]
     opts = dict(strategy=draw(st.sampled_from(strategies)), jobs=draw(st.sampled_from(jobs)), timeout=30)
     fmt = draw(st.sampled_from(formats))
     if fmt == 'pretty':
